@@ -54,15 +54,19 @@ ASSUMPTIONS = [
 ]
 EXPLANATION = ('every window length and every small row-length profile around w-1/w/w+1 is executed on the real '
                'functions; trimming, row re-wrapping and code arithmetic are compared value by value with a per-row model')
-MANIFEST_TEXT = ('Exhaustive enumeration of ragged sequence collections against a per-row reference model. Part A: every '
-                 'list of 1..2 rows (size-2 alphabet: 1..3 rows) whose rows are EVERY string of length 0..3 (thorough: 0..4, '
-                 '1..3 rows for sizes 2 and 3) over alphabets of size 4 (bit-packed), 2 and 3 (generic), every window 1..4 '
-                 '(thorough 1..5). Part B: window w = {1,2,3,4,5,8,16,31} plus a seed-rotated third of the remaining w '
-                 '(thorough: every w 1..31) x every list of 1..3 rows (thorough: also 4 rows from {0,w-1,w,w+1}) with lengths '
-                 'from {0,1,w-1,w,w+1,2w} x ACGT / ACGTN / amino acids x letter fills {cyclic, all-first, all-last, quadratic} '
-                 'x input {fresh, sliced view, ASCII text}. Functions: get_kmers, get_minimizers for every k <= w, '
-                 'match_string, get_motif_scores, count_kmers (flat and per row), KmerEncoding.to_string/encode. Every value '
-                 'is compared with the definition on the row alone, and every multi-row result with the single-row result.')
+MANIFEST_TEXT = ('Exhaustive enumeration of ragged sequence collections against a per-row reference model. Part A (every content): '
+                 'every list of 1..2 rows (3 rows for rows of length <= 2; thorough: 3 rows of length <= 3 for the 2-letter '
+                 'alphabet) whose rows are EVERY string of length 0..3 (thorough: 0..4 for the 2- and 3-letter alphabets) over '
+                 'alphabets of size 4 (bit-packed path; thorough also a non-DNA 4-letter alphabet), 2 and 3 (generic path), '
+                 'every window 1..4 (1..5). Part B (every window length): w = {1,2,3,4,5,8,16,31} plus a seed-rotated third of the '
+                 'remaining w (thorough: every w 1..31) x every list of 1..2 rows with lengths from {0,1,w-1,w,w+1,2w} and of '
+                 '3 rows from {0,w-1,w,w+1} (thorough: 3 rows from the full set, 4 rows from {0,w-1,w,w+1}) x ACGT / ACGTN / '
+                 'amino acids x letter fills {cyclic, all-first, all-last, quadratic} x input {freshly encoded, sliced '
+                 'non-contiguous view, ASCII text}. Functions on every case: get_kmers, get_minimizers for EVERY k <= w, '
+                 'match_string (in-row, boundary-straddling and constant patterns), get_motif_scores (finite and -inf PWM), '
+                 'count_kmers (flat and per row), KmerEncoding.to_string/encode. Every value is compared with the definition on '
+                 'the row alone (window count per row, none for short rows, little-endian code, rendered text, min, match, score, '
+                 'counts) and every multi-row result with the result of the same call on each row alone.')
 MANIFEST_NOTE = ('Trusted: NumPy, npstructures, CPython, as_encoded_array and ragged slicing for input construction, '
                  'ravel()/raw()/lengths for observation, models/windows.py (self-tested against bionumpy\'s documented '
                  'examples and hand-computed codes). Rows longer than 2w, more than 4 rows, |A|**k >= 2**63 are not explored.')
@@ -658,5 +662,5 @@ def repro_py(case):
         exp = model_unit(unit, rows, case['alphabet'], w)
         show = ('flat = out.ravel(); flat = flat.raw() if hasattr(flat, "raw") else flat\n'
                 'print("row lengths", out.shape[-1], "values", np.asarray(flat).tolist())')
-    return 'import numpy as np, bionumpy as bnp\n%s\n%s\n%s\nprint("expected per row (definition on each sequence alone):", %r)\n' % (
+    return 'import numpy as np, bionumpy as bnp\ninf = float("inf")\n%s\n%s\n%s\nprint("expected per row (definition on each sequence alone):", %r)\n' % (
         build, call, show, exp)
